@@ -94,12 +94,12 @@ func (r *Reader) HasAudio() bool {
 	return r.Header[TypeFlagsOffset]&TypeFlagsAudio != 0
 }
 
-const uninitializedTimestampDelta = 0xffffffff
-
 // Writer flv Writer
 type Writer struct {
-	w              io.Writer
-	timestampDelta uint32 // 流在中间输出时的相对时间戳
+	w       io.Writer
+	started bool   // 已输出第一个媒体 Tag
+	last    uint32 // 上一个媒体 Tag 的（源）时间戳
+	elapsed int64  // 相对第一个媒体 Tag 的时间，单位毫秒；流在中间输出时的相对时间戳
 }
 
 // NewWriter .
@@ -109,8 +109,7 @@ func NewWriter(w io.Writer, typeFlags byte) (*Writer, error) {
 	}
 
 	writer := &Writer{
-		w:              w,
-		timestampDelta: uninitializedTimestampDelta,
+		w: w,
 	}
 
 	var flvHeader [FlvHeaderSize]byte
@@ -139,12 +138,28 @@ func (w *Writer) writeTagSize(tagSize uint32) error {
 
 // WriteFlvTag write flv tag
 func (w *Writer) WriteFlvTag(tag *Tag) error {
-	// 记录第一个Tag的时间戳
-	if w.timestampDelta == uninitializedTimestampDelta {
-		w.timestampDelta = tag.Timestamp
+	// Metadata and sequence header tags carry no media time of their own (the
+	// muxer stamps them 0, the cache with the time of the GOP they precede):
+	// the first media tag is the origin of the client's time line.
+	if !tag.IsMetadata() && !tag.IsH2645SequenceHeader() && !tag.IsAACSequenceHeader() {
+		if !w.started {
+			w.started = true
+			w.last = tag.Timestamp
+		}
+		// Signed step from the previous media tag: survives the 32-bit wrap of
+		// the source timestamps.
+		w.elapsed += int64(int32(tag.Timestamp - w.last))
+		w.last = tag.Timestamp
 	}
 
-	if err := writeTag(w.w, tag, w.timestampDelta); err != nil {
+	// A tag older than the first one (e.g. audio slightly behind the key frame
+	// the client joined at) is shown at 0, not at a wrapped ~2^32 ms.
+	timestamp := uint32(0)
+	if w.elapsed > 0 {
+		timestamp = uint32(w.elapsed)
+	}
+
+	if err := writeTag(w.w, tag, tag.Timestamp-timestamp); err != nil {
 		return err
 	}
 
